@@ -15,8 +15,9 @@ witnesses of the known findings.
 from __future__ import annotations
 
 import json
+import sys
 
-from . import c04, common, progen, whole
+from . import c04, common, progen, srcpy, whole
 from .common import Check, Driver, proof_stage, rng_for
 
 PROP = "C01"
@@ -86,7 +87,7 @@ def run(tier: str, seed: int) -> int:
             failures.append({"what": f"regression corpus ({rid}): " + (f"emitted code and source disagree: {d['verdict']}" if st == "bad" else f"not comparable any more ({st})"),
                              "profile": "regression", "src": rsrc, "prog": progen.jprogram(rprog), "opts": whole.default_opts(append_version=False),
                              "env_seed": (d or {}).get("env_seed", 1), "pool": [0.0, 1.0, 2.0, 5.0, 6.0, 7.0], "budget": budget, "code": (d or {}).get("code")})
-    plan = [("core", 240 if tier == "quick" else 2400), ("funcs", 120 if tier == "quick" else 1200), ("calls", 160 if tier == "quick" else 1600)]
+    plan = [("core", 240 if tier == "quick" else 1500), ("funcs", 120 if tier == "quick" else 800), ("calls", 160 if tier == "quick" else 1000)]
     n_env = 3 if tier == "quick" else 5
     feats = {}
     for kind, n in plan:
@@ -130,15 +131,19 @@ def run(tier: str, seed: int) -> int:
             break
         # function-free programs, and (last third) programs with functions compiled out of line: leaf functions / functions that call functions
         with_funcs = i >= n_core
-        g, prog, src, pool = whole.gen_program(r, ("incoref" if i % 2 else "incoren") if with_funcs else "incore")
-        opts = whole.default_opts(append_version=False, inline_functions=not with_funcs)
+        # function streams: leaf functions / functions that call functions, compiled out of line; and the default option
+        # (single-use functions inlined at their call site)
+        fprof = ["incoref", "incoren", "incorei"][i % 3] if with_funcs else "incore"
+        inl = (fprof in ("incore", "incorei"))
+        g, prog, src, pool = whole.gen_program(r, fprof)
+        opts = whole.default_opts(append_version=False, inline_functions=inl)
         res, cap = whole.compile_captured(src, opts)
         if "error" in res or not cap.lines:
             chk.bump("incore:compile-error")
             continue
         vtext = c04.texts(cap)[0]
-        v = drv.call(cmd="core-compare", prog=progen.jprogram(prog), text=vtext, seed=r.randrange(1 << 30), fuel=budget["fuel"], pool=pool)
-        chk.bump(("incoref:" if with_funcs else "incore:") + v["verdict"])
+        v = drv.call(cmd="core-compare", prog=progen.jprogram(prog), text=vtext, seed=r.randrange(1 << 30), fuel=budget["fuel"], pool=pool, inline=inl)
+        chk.bump(fprof + ":" + v["verdict"])
         if v["verdict"] == "same":
             chk.count(("incore", src), nontrivial=True)
             # the next link of the chain: the real register allocation of this program, judged by the validator of C04
@@ -163,6 +168,19 @@ def run(tier: str, seed: int) -> int:
     if diffs:
         chk.broken.append(f"correspondence `comp (flatten src)` = real pre-allocation code fails on {len(diffs)} core programs; first: {json.dumps(diffs[0]['verdict'])}")
         chk.coverage["core_correspondence_failures"] = diffs[:3]
+    # --- the reference semantics itself against CPython -----------------------------------------------------------------------
+    # PV.Src is a trusted specification; here it is validated: the generated abstract program, printed as plain Python over
+    # ENV / EFF, is executed by CPython and by PV.Src on the same explicit environment.  A disagreement says nothing about /repo:
+    # it is reported in the evidence (and on stderr), the oracle above would then be in doubt.
+    n_ref = 80 if tier == "quick" else 1000
+    for i in range(n_ref):
+        kind = ["core", "funcs", "calls", "loopctl", "incoren"][i % 5]
+        g, prog, src, pool = whole.gen_program(r, kind)
+        verdict, det = srcpy.compare(drv, prog, progen.jprogram(prog), r.randrange(1 << 30), [float(x) for x in pool])
+        chk.bump("refsem:" + verdict.split(":")[0])
+        if verdict == "differ":
+            chk.coverage.setdefault("reference_semantics_disagreements", []).append({"src": src, "why": det["why"]})
+            print(f"[C01] warning: PV.Src and CPython disagree on a generated program: {det['why']}", file=sys.stderr)
     chk.coverage["features"] = dict(sorted(feats.items()))
     # witnesses of the known findings
     known_ids = {f["id"] for f in chk.known}
